@@ -416,7 +416,13 @@ fn visit_t<'a, T: Ty<'a>>(ctx: &Ctx, b: &'a [u8], n: usize, pol: Option<usize>) 
                         o.push(format!("itad={}", oracle::iter_adaptors(pr.parsed())));
                     }
                 }
-                o.push(format!("rb={}", oracle::rb(T::NAME, b, n, &res.as_ref().map(|pr| pr.consumed()).map_err(|e| e.clone()), &line)));
+                // the reference oracle calls accessors, conversions and the iterator of the parsed object: a panic in
+                // one of them is a finding about that object, not the end of the line
+                let ours_k = res.as_ref().map(|pr| pr.consumed()).map_err(|e| e.clone());
+                o.push(format!(
+                    "rb={}",
+                    pc(|| oracle::rb(T::NAME, b, n, &ours_k, &line)).unwrap_or_else(|_| "FAIL:accessor-conversion-or-iterator-panics".into())
+                ));
             }
             Some(k) => {
                 // the partition holds for every visitor, a breaking one included, whenever the visit succeeds
